@@ -56,5 +56,11 @@ func BuildInfoLabels(obj *metav1.ObjectMeta) ([]string, []string) {
 }
 
 func sanitizeLabelName(s string) string {
-	return invalidLabelCharRE.ReplaceAllString(s, "_")
+	s = invalidLabelCharRE.ReplaceAllString(s, "_")
+	// a Prometheus label name cannot start with a digit, a Kubernetes label key can
+	if s != "" && s[0] >= '0' && s[0] <= '9' {
+		s = "_" + s
+	}
+
+	return s
 }
